@@ -33,10 +33,10 @@ theorem keyLoop_ok (ca : Option Nat) : ∀ (gets : List GetRes) (i : Nat) (accI 
         · rw [h3]; simp
 
 theorem prepare_ok {fix : Bool} {icount : Int} {ca : Option Nat} {gets : List GetRes} {p : Prep}
-    (h : prepare fix icount ca gets = .ok p) :
+    (h : prepareWith fix icount ca gets = .ok p) :
     ∃ l : List (List Nat × Int), gets = l.map (fun p => GetRes.ok p.1 p.2) ∧
       p.items = l.map (fun q => mkItem q.1 q.2) ∧ p.calls = group (l.map (·.1)) ∧ p.gets = gets.length := by
-  unfold prepare at h
+  unfold prepareWith at h
   split at h
   · simp at h
   · split at h
@@ -58,7 +58,7 @@ theorem sumT_map {α β} (f : β → Nat) (g : α → β) (l : List α) : sumT f
   | cons x xs ih => simp [ih]
 
 theorem wf_initSt {fix : Bool} {icount : Int} {ca : Option Nat} {gets : List GetRes} {p : Prep}
-    (hg : GoodGets gets) (h : prepare fix icount ca gets = .ok p) (out : Nat → Outcome) : WFInit (initSt p out) := by
+    (hg : GoodGets gets) (h : prepareWith fix icount ca gets = .ok p) (out : Nat → Outcome) : WFInit (initSt p out) := by
   obtain ⟨l, h1, h2, h3, _⟩ := prepare_ok h
   refine ⟨?_, ?_, ?_, ?_, rfl, rfl, rfl, ?_, rfl, rfl, rfl, rfl, rfl⟩
   · intro t ht
